@@ -268,6 +268,24 @@ def arrays_digest(*arrs):
     return h.hexdigest()
 
 
+def globals_fingerprint(logger=None):
+    """Process-wide settings a library call must leave as it found them."""
+    import warnings as _w
+
+    fp = {
+        "np.geterr": dict(np.geterr()),
+        "np.printoptions": {k: repr(v) for k, v in sorted(np.get_printoptions().items())},
+        "warnings.filters": [repr(f) for f in _w.filters],
+        "logging.raiseExceptions": logging.raiseExceptions,
+        "logging.root.level": logging.getLogger().level,
+        "logging.root.handlers": len(logging.getLogger().handlers),
+        "logging.disable": logging.root.manager.disable,
+    }
+    if logger is not None:
+        fp["logger"] = (logger.level, len(logger.handlers), logger.disabled, logger.propagate, [h.level for h in logger.handlers])
+    return fp
+
+
 class Store:
     """Durable store: the only thing that survives a crash."""
 
@@ -414,6 +432,7 @@ class Act:
         self.line_steps = 0
         self.inputs_before = None
         self.inputs_after = None
+        self.globals_changed = []
         self._jac_buf = None
         self._fault_idx = {}
         for f in self.faults:
@@ -514,6 +533,16 @@ class Act:
         if cb.get("scribble"):
             self.fired["scribble_xk"] += 1
             xk[:] = np.nan
+        if cb.get("tamper"):
+            # the user works destructively on the state object it was handed
+            self.fired["tamper_state"] += 1
+            for arr in (state.x, state.jac, state.hess_inv.sk, state.hess_inv.yk):
+                try:
+                    arr[...] = np.nan
+                except Exception:  # noqa: BLE001 - read-only is fine too
+                    pass
+            state["fun"] = float("nan")
+            state["nit"] = -1
         stop_at = cb.get("stop_at")
         ret = bool(stop_at is not None and j >= stop_at)
         if ret:
@@ -684,6 +713,7 @@ class Act:
     def run(self):
         kw = self.kwargs()
         self.inputs_before = self._input_digest()
+        g_before = globals_fingerprint(kw.get("logger"))
         st = _stack()
         st.append(self)
         tracer = None
@@ -706,6 +736,8 @@ class Act:
                 self.line_steps = tracer.n
             st.pop()
         self.inputs_after = self._input_digest()
+        g_after = globals_fingerprint(kw.get("logger"))
+        self.globals_changed = sorted(k for k in g_before if g_before[k] != g_after.get(k))
         if self._fstream is not None:
             self.fired["log_fail"] += self._fstream.attempts
         return self
